@@ -1,8 +1,10 @@
 (* C03 — responses echo the request header and question.
    [handle_message] is the model of Server::handle_message (Model/Server.v); [answer] (query
    answering, C05) and [verify] (TSIG HMAC verification, C10/C11) are universally quantified. *)
+From QV Require Import Model.ZoneTree Model.Query Model.MsgWriter Spec.MsgWriterS Proofs.MsgWriterNameP Model.QueryW Proofs.ServerEchoWP
+  Proofs.ServerPlainP Proofs.ServerHdrP Proofs.ServerHdr3P.
 From QV Require Import Base.ListX Model.NameWire Model.Reader Model.RdataLite Model.Server
-  Spec.NameWireS Spec.NameRepr Spec.ReaderS Proofs.ReaderP Proofs.ServerP.
+  Spec.NameWireS Spec.NameRepr Spec.ReaderS Spec.MsgWalkS Proofs.ReaderP Proofs.ServerP Proofs.ServerEchoP.
 
 (* No response at all exactly for: fewer than 12 octets, QR set, or more than one question. *)
 Theorem c03_silent_iff : forall answer verify cfg req, wf_cfg cfg -> wf_bytes req ->
@@ -43,6 +45,124 @@ Proof.
   eexists. split; [vm_compute; reflexivity|]. repeat split.
 Qed.
 
+(* ---- the octet-for-octet echo, as theorems over the BYTE-LEVEL composition -------------------------
+   [respond_w] / [respond_plain] (Model/QueryW.v) are what the server-level runner executes for a
+   response: Writer::new, id/QR/opcode/RD, add_question, EDNS reservation and limit, then either the
+   whole query answering through the Writer interface or a bare RCODE, then finish — on the Writer
+   model of C12.  [qname_uncompressed req]: the label sequence at offset 12 of the request ends in
+   the root label (no compression pointer). *)
+
+(* request side (C14/C15): the question the Reader returns, re-serialised (name wire form, case as
+   received, big-endian QTYPE and QCLASS), IS the request's octets [12, end of the question) *)
+Theorem c03_question_octets : forall req r1 q, wf_bytes req -> 12 <= length req ->
+  read_question (r0_of req) = (r1, Ok q) -> qname_uncompressed req ->
+  exists ls, Reader.q_name q = name_of ls /\ labels_of (Reader.q_name q) = ls /\
+    r_cursor r1 = 12 + length (nm_wire ls ++ be16 (Reader.q_type q) ++ be16 (Reader.q_class q)) /\
+    slice req 12 (r_cursor r1) = nm_wire ls ++ be16 (Reader.q_type q) ++ be16 (Reader.q_class q).
+Proof. exact question_octets. Qed.
+
+(* writer side (C12): whatever query answering adds afterwards, the finished message carries the first
+   question uncompressed, case preserved, at offset 12 *)
+Theorem c03_writer_keeps_question : forall negttl buf tcp id rd qname qtype qclass edns limit z len b,
+  respond_w negttl buf tcp id rd qname qtype qclass edns limit z = Some (len, b) ->
+  let Q := nm_wire qname ++ be16 qtype ++ be16 qclass in
+  slice b 12 (12 + length Q) = Q /\ 12 + length Q <= len.
+Proof. exact respond_w_question. Qed.
+
+(* the composition: response octets [12, end of question) = request octets [12, end of question),
+   for every response the server model sends with a question, answered (respond_w) or not (respond_plain) *)
+Theorem c03_question_echo_octets : forall answer verify cfg req w q, wf_cfg cfg -> wf_bytes req ->
+  handle_message answer verify cfg req = Ok (Some w) -> Server.w_question w = Some q -> qname_uncompressed req ->
+  exists r1, read_question (r0_of req) = (r1, Ok q) /\ 12 <= length req /\
+    (forall negttl buf tcp id rd edns limit z len b,
+       respond_w negttl buf tcp id rd (labels_of (Reader.q_name q)) (Reader.q_type q) (Reader.q_class q) edns limit z = Some (len, b) ->
+       r_cursor r1 <= len /\ slice b 12 (r_cursor r1) = slice req 12 (r_cursor r1)) /\
+    (forall buf tcp id rd edns limit rcode len b,
+       respond_plain buf tcp id rd (labels_of (Reader.q_name q)) (Reader.q_type q) (Reader.q_class q) edns limit rcode = Some (len, b) ->
+       r_cursor r1 <= len /\ slice b 12 (r_cursor r1) = slice req 12 (r_cursor r1)).
+Proof. exact handle_message_echo. Qed.
+
+(* The header at the byte level, for the responses that do not come from query answering (REFUSED, NOTIMP
+   for the special QTYPEs / QCLASS ANY, SERVFAIL): [respond_plain] is a run of the Writer operation language
+   of C12 (respond_plain_run), so C12's message-level round trip applies: the INDEPENDENT RFC 1035 decoder of
+   Spec/MsgWriterS.v, applied to the finished octets, returns the ID, QR = 1, opcode 0, AA = TC = 0, RD as
+   given, RA = 0, Z = 0, the RCODE, exactly one question (the given name modulo ASCII case here; octet for
+   octet by c03_writer_keeps_question), no answer/authority records, and — iff an EDNS size was given —
+   exactly one OPT: owner root, class = that size, TTL field 0 (no extended-RCODE bits, version 0). *)
+Theorem c03_plain_response_decodes : forall buf tcp id rd qname qt qc edns limit rcode len b,
+  (id < 65536)%N -> wf_name qname -> length (nm_wire qname) <= 255 -> (qt < 65536)%N -> (qc < 65536)%N ->
+  (rcode < 16)%N -> (forall sz, edns = Some sz -> (sz < 65536)%N) ->
+  respond_plain buf tcp id rd qname qt qc edns limit rcode = Some (len, b) ->
+  exists m, decode_msg (firstn len b) = Some m /\
+    m_id m = id /\ N.testbit (m_flags2 m) 7 = true /\ ((m_flags2 m / 8) mod 16 = 0)%N /\
+    N.testbit (m_flags2 m) 2 = false /\ N.testbit (m_flags2 m) 1 = false /\ N.testbit (m_flags2 m) 0 = rd /\
+    N.testbit (m_flags3 m) 7 = false /\ ((m_flags3 m / 16) mod 8 = 0)%N /\ (m_flags3 m mod 16 = rcode)%N /\
+    (exists d, m_qs m = [d] /\ map (map lower) qname = map (map lower) (dq_name d) /\ dq_type d = qt /\ dq_class d = qc) /\
+    m_an m = [] /\ m_ns m = [] /\
+    match edns with
+    | None => m_ar m = []
+    | Some sz => exists d, m_ar m = [d] /\ dr_owner d = [] /\ dr_type d = 41%N /\ dr_class d = sz /\ dr_ttl d = 0%N
+    end.
+Proof. exact respond_plain_decodes. Qed.
+
+(* End to end from the request: a response of the server model with a question that does not come from query
+   answering, rendered by the byte-level composition, decodes (independent decoder) to the REQUEST's ID, QR = 1,
+   opcode 0, AA = TC = 0, the model's RD, RA = Z = 0, the RCODE, the question's type and class, no records, and an
+   OPT (owner root, class = the configured payload size, TTL 0) exactly when the model's response is an EDNS one. *)
+Theorem c03_plain_response_end_to_end : forall answer verify cfg req w q buf tcp limit rcode len b, wf_cfg cfg -> wf_bytes req ->
+  handle_message answer verify cfg req = Ok (Some w) -> Server.w_question w = Some q -> (rcode < 16)%N ->
+  respond_plain buf tcp (Server.w_id w) (Server.w_rd w) (labels_of (Reader.q_name q)) (Reader.q_type q) (Reader.q_class q)
+                (option_map fst (Server.w_edns w)) limit rcode = Some (len, b) ->
+  exists m, decode_msg (firstn len b) = Some m /\
+    sbe16 req 0 = Some (m_id m) /\ N.testbit (m_flags2 m) 7 = true /\ ((m_flags2 m / 8) mod 16 = 0)%N /\
+    N.testbit (m_flags2 m) 2 = false /\ N.testbit (m_flags2 m) 1 = false /\ N.testbit (m_flags2 m) 0 = Server.w_rd w /\
+    N.testbit (m_flags3 m) 7 = false /\ ((m_flags3 m / 16) mod 8 = 0)%N /\ (m_flags3 m mod 16 = rcode)%N /\
+    (exists d, m_qs m = [d] /\ dq_type d = Reader.q_type q /\ dq_class d = Reader.q_class q) /\
+    m_an m = [] /\ m_ns m = [] /\
+    match Server.w_edns w with
+    | None => m_ar m = []
+    | Some _ => exists d, m_ar m = [d] /\ dr_owner d = [] /\ dr_type d = 41%N /\ dr_class d = c_edns_size cfg /\ dr_ttl d = 0%N
+    end.
+Proof. exact plain_response_end_to_end. Qed.
+
+(* ... and for the ANSWERED responses ([respond_w]: the whole query answering of C05 through the Writer of
+   C12): the message starts with the given ID (big-endian) and its third octet has QR = 1, opcode 0 and RD as
+   given, whatever query answering does (AA / TC share that octet and are set and cleared on the way; the
+   RCODE is in the next one).  Invariant HK through every Writer-interface operation, clear_rrs and finish. *)
+Theorem c03_answered_response_header : forall negttl buf tcp id rd qname qtype qclass edns limit z len b,
+  respond_w negttl buf tcp id rd qname qtype qclass edns limit z = Some (len, b) ->
+  slice b 0 2 = be16 id /\
+  exists x, nth_error b 2 = Some x /\ (x < 256)%N /\ N.testbit x 7 = true /\ ((x / 8) mod 16 = 0)%N /\ N.testbit x 0 = rd.
+Proof. exact respond_w_header. Qed.
+
+(* ... and RA = 0, Z = 0: the fourth octet (RA | Z | RCODE) of every answered response is below 16.  It starts
+   at 0, only set_rcode touches it, and the answering logic only passes RCODEs that fit in 4 bits (the lifting
+   of Proofs/QueryInv16P.v requires set_rcode to preserve the invariant for such RCODEs only). *)
+Theorem c03_answered_response_ra_z : forall negttl buf tcp id rd qname qtype qclass edns limit z len b,
+  respond_w negttl buf tcp id rd qname qtype qclass edns limit z = Some (len, b) ->
+  exists y, nth_error b 3 = Some y /\ (y < 16)%N.
+Proof. exact respond_w_ra_z. Qed.
+
+(* Non-vacuity: wWw.a. IN A, mixed case, REFUSED: the 11 question octets come back unchanged *)
+Example c03_echo_example :
+  let req := [18;52; 1;0; 0;1; 0;0; 0;0; 0;0; 3;119;87;119;1;97;0; 0;1; 0;1]%N in
+  wf_bytes req /\ qname_uncompressed req /\
+  exists r1 q len b, read_question (r0_of req) = (r1, Ok q) /\ r_cursor r1 = 23 /\
+    respond_plain (repeat 0%N 64) false 4660 true (labels_of (Reader.q_name q)) (Reader.q_type q) (Reader.q_class q) None 512 5
+      = Some (len, b) /\ len = 23 /\ slice b 12 23 = slice req 12 23.
+Proof.
+  cbv zeta. split; [apply wf_bytesb_spec; reflexivity|]. split; [exists 19; vm_compute; reflexivity|].
+  do 4 eexists. split; [vm_compute; reflexivity|]. split; [reflexivity|]. split; [vm_compute; reflexivity|].
+  split; reflexivity.
+Qed.
+
 Print Assumptions c03_silent_iff.
 Print Assumptions c03_header_and_question.
 Print Assumptions c03_question_is_spec.
+Print Assumptions c03_question_octets.
+Print Assumptions c03_writer_keeps_question.
+Print Assumptions c03_question_echo_octets.
+Print Assumptions c03_plain_response_decodes.
+Print Assumptions c03_answered_response_header.
+Print Assumptions c03_plain_response_end_to_end.
+Print Assumptions c03_answered_response_ra_z.
